@@ -148,6 +148,8 @@ def run_C15(rep, tier, rng):
     extra = 30 if tier == "quick" else 300
     while len(pool) < extra:
         pool.append(gen.render(gen.random_grammar(rng, payload="mixed", derive=False), rng))
+    pool += gen.invisible_probes(pool[:10], rng, per_base=(4 if tier == "quick" else 13))
+    pool += ["\r\n".join(t.split("\n")) for t in pool[:6]] + [t + "\n// trailing comment without newline" for t in pool[:3]]
     outs = kv.run_impl("generate", [kv.hexs(t) for t in pool])
     rt = 0
     texts_ok = []
@@ -194,6 +196,8 @@ def text_stream(rng, n_valid, n_malformed):
     # one structural quantity at the limits of 8/16-bit counters (valid or with a single error): these go in front of
     # the malformed stream so that every check that uses the stream sees them
     mal = gen.size_probes(thorough=(n_malformed > 5000)) + mal
+    # characters that look like nothing (BOM, zero-width …) in front of / behind / inside otherwise valid texts
+    mal = gen.invisible_probes(valid[:12], rng, per_base=(3 if n_malformed <= 5000 else 13)) + mal
     return valid, mal
 
 
